@@ -112,6 +112,12 @@ def text_family(chk, exe, d, tier, rng):
         base = xlib.src_of(P)
         for j, v in enumerate(xtext.variations(base, rng, 4 if tier == "quick" else 30)):
             srcs.append(('text:tvar:%s:%d' % (pid, j), v, [66, 200, 10]))
+    # Unusual!XPrograms (the TLC-defined space of syntactically plausible, semantically unusual programs that C09 uses to look for crashes):
+    # whatever of it the grammar, the name table and XLang accept as a defined program must also BEHAVE as defined
+    import fuzzlib
+    comp, _ = fuzzlib.unusual(d, 1)
+    for k, pu in enumerate(fuzzlib.x_unusual_programs(comp, rng, 2500 if tier == "quick" else 60000)):
+        srcs.append(('text:unusual:%d' % k, fuzzlib.render_x(pu), [66, 200, 10]))
     recs, res = xtext.run(d, exe, srcs, fuel=400000 if tier != "quick" else 60000, maxdepth=400)
     can = json.loads(json.dumps(next(r for r in recs if r['id'].startswith('text:file:hello_putval')))); can['id'] = 'canary'; can['obs']['xv'] += 1
     verd = xlib.validate(recs + [can], d, "c01text", module="XTextV", cfg="XTextV.cfg")
